@@ -250,6 +250,30 @@ def metamorphic(c, vfio):
     cases = c03_tools.tool_cases(os.path.join(build_dir(), "repo", "bin"), work0, random.Random(c.seed), c.tier)
     nsched = 12 if c.tier == "quick" else 60
     tools_seen = set()
+    # compressed stdin (exercises ReadStream::ReadInput's refill loop and the member chaining under
+    # short reads): for every stdin-reading invocation whose clean output on gzip/bzip2/xz/two-member
+    # input equals its clean output on the plain input, the compressed variants join the catalogue
+    import bz2, gzip, lzma
+    extra = []
+    seen_tool = set()
+    for case in cases:
+        data = case.get("stdin", b"")
+        if not data or case["tool"] in seen_tool or len(data) < 64:
+            continue
+        st0, out0, files0, _ = run_case(case, work0, {}, 60)
+        half = len(data) // 2
+        for name, blob in (("gz", gzip.compress(data, 1)), ("bz2", bz2.compress(data, 1)), ("xz", lzma.compress(data, preset=0)),
+                           ("gz+xz", gzip.compress(data[:half], 1) + lzma.compress(data[half:], preset=0))):
+            v = dict(case)
+            v["stdin"] = blob
+            v["note"] = "stdin compressed as " + name
+            v["variant"] = name
+            st1, out1, files1, _ = run_case(v, work0, {}, 60)
+            if st1 == 0 and st0 == 0 and out1 == out0 and files1 == files0:
+                extra.append(v)
+                seen_tool.add(case["tool"])
+    cases = cases + extra
+    c.cov["metamorphic_compressed_stdin_variants"] = len(extra)
     for ci, case in enumerate(cases):
         tool = case["tool"]
         tools_seen.add(tool)
@@ -283,7 +307,7 @@ def metamorphic(c, vfio):
             except OSError:
                 pass
             injected_total += inj
-            c.count(("meta", tool, ci, k), nontrivial=inj > 0, bucket="metamorphic/%s/%s" % (tool, "stdin-dribbled" if dribble is not None else ("injected" if inj else "no-interposable-call")))
+            c.count(("meta", tool, ci, k), nontrivial=inj > 0, bucket="metamorphic/%s%s/%s" % (tool, ("[" + case["variant"] + "]") if case.get("variant") else "", "stdin-dribbled" if dribble is not None else ("injected" if inj else "no-interposable-call")))
             diffs = []
             if st != st0:
                 diffs.append("exit status %s vs %s" % (st, st0))
